@@ -4,7 +4,7 @@
 use crate::case::{elems_of, Case, Eff};
 use crate::schediter::SchedIter;
 use crate::source::{make_toks, LogIter};
-use crate::tok::{Cp, Item, Tok, GEN_SHIFT};
+use crate::tok::{Big, Cp, Item, Tok, GEN_SHIFT};
 use crate::visit::TermResult;
 use orx_concurrent_iter::{ConIterOfIter, ConIterOfRange, ConIterOfSlice, ConIterOfVec, IntoConcurrentIter, IterIntoConcurrentIter};
 use orx_parallel::verif::{par_from_con_iter, ParEmpty};
@@ -19,6 +19,20 @@ pub fn svec(case: &Case, eff: &mut Eff, f: impl FnOnce(ParEmpty<SchedIter<ConIte
     *eff = elems_of(&case.input);
     let v = make_toks(&case.input);
     f(par_from_con_iter(SchedIter::new(v.into_con_iter())))
+}
+
+pub fn sbigvec(case: &Case, eff: &mut Eff, f: impl FnOnce(ParEmpty<SchedIter<ConIterOfVec<Big>>>) -> R) -> R {
+    *eff = elems_of(&case.input);
+    let v: Vec<Big> = make_toks(&case.input).into_iter().map(Big::new).collect();
+    f(par_from_con_iter(SchedIter::new(v.into_con_iter())))
+}
+
+pub type BigIter = std::iter::Map<LogIter, fn(Tok) -> Big>;
+
+pub fn sbigiter(case: &Case, eff: &mut Eff, f: impl FnOnce(ParEmpty<SchedIter<ConIterOfIter<Big, BigIter>>>) -> R) -> R {
+    *eff = elems_of_iter(case);
+    let it: BigIter = LogIter::new(&case.input, case.known, case.endless).map(Big::new as fn(Tok) -> Big);
+    f(par_from_con_iter(SchedIter::new(IterIntoConcurrentIter::into_con_iter(it))))
 }
 
 pub fn sslice(case: &Case, eff: &mut Eff, f: impl for<'a> FnOnce(ParEmpty<SchedIter<ConIterOfSlice<'a, Tok>>>) -> R) -> R {
